@@ -1,10 +1,12 @@
 import CantoVerif.Driver.Coinswap
 import CantoVerif.Driver.Onboarding
 import CantoVerif.Driver.Govshuttle
+import CantoVerif.Driver.Epochs
 /-! Line-protocol driver: `lake env lean --run Main.lean <suite> < trace` -/
 def main (args : List String) : IO UInt32 := do
   match args with
   | ["coinswap"] => CV.Drv.Coinswap.main; return 0
   | ["onboarding"] => CV.Drv.Onboarding.main; return 0
   | ["govshuttle"] => CV.Drv.Govshuttle.main; return 0
+  | ["epochs"] => CV.Drv.Epochs.main; return 0
   | _ => IO.eprintln "usage: Main <suite>"; return 2
